@@ -121,6 +121,31 @@ static rc::Gen<Op> genOp() {
     return gen::map(gen::tuple(kind, rng<int>(0, 1000), rng<int>(0, 1000), rng<int>(0, 1000)),
                     [](std::tuple<int, int, int, int> t) { return normalize(std::get<0>(t), std::get<1>(t), std::get<2>(t), std::get<3>(t)); });
 }
+// profile "deep": no table-rebuilding ops, one chip, many simultaneous young notes of two instruments, pedals - reaches
+// arpeggio sharing, evacuation and re-strikes of pedal-held keys
+static rc::Gen<Op> genOpDeep() {
+    using namespace rc;
+    auto kind = gen::weightedElement<int>({{44, O_NOTEON}, {12, O_NOTEOFF}, {14, O_CC}, {6, O_PATCH}, {1, O_BEND}, {1, O_PANIC}, {1, O_RESETSTATE}, {8, O_ADVANCE}, {1, O_ARP}, {1, O_ALLOCMODE}});
+    return gen::map(gen::tuple(kind, rng<int>(0, 1000), rng<int>(0, 1000), rng<int>(0, 1000)),
+                    [](std::tuple<int, int, int, int> t) {
+                        int k = std::get<0>(t), a = std::get<1>(t), b = std::get<2>(t), c = std::get<3>(t);
+                        Op p; p.kind = k;
+                        static const int chs[] = {0, 0, 1, 9};
+                        static const int keys[] = {60, 61, 62, 63, 64, 65, 66, 67, 36, 38};
+                        switch(k) {
+                        case O_NOTEON: p.a = chs[a % 4]; p.b = keys[b % 10]; p.c = 1 + c % 127; break;
+                        case O_NOTEOFF: p.a = chs[a % 4]; p.b = keys[b % 10]; break;
+                        case O_CC: { static const int cc[] = {64, 64, 64, 66, 66, 123, 121, 120}; p.a = chs[a % 4]; p.b = cc[b % 8]; p.c = (c & 1) ? 127 : 0; break; }
+                        case O_PATCH: p.a = chs[a % 4]; p.b = b % 2; break;
+                        case O_BEND: p.a = chs[a % 4]; p.b = (b * 37) % 16384; break;
+                        case O_ADVANCE: { static const int ms[] = {1, 1, 5, 10, 35, 100}; p.a = ms[a % 6]; break; }
+                        case O_ARP: p.a = (a % 4) != 0; break;
+                        case O_ALLOCMODE: p.a = (a % 4) - 1; break;
+                        default: break;
+                        }
+                        return p;
+                    });
+}
 namespace rc { template <> struct Arbitrary<Op> { static Gen<Op> arbitrary() { return genOp(); } }; }
 namespace vf { void showValue(const Op &p, std::ostream &os) { os << kOpName[p.kind] << "(" << p.a << "," << p.b << "," << p.c << ")"; } }
 
@@ -179,6 +204,12 @@ int main(int argc, char **argv) {
         Case cs; cs.chips = 1 + ((chipsel < 0 ? -chipsel : chipsel) % 2); cs.arp = arp; cs.ops = ops;
         std::string s = ser(cs);
         run_case(s, [&] { Info info; run(cs, info); account(cs, info, s); });
+    });
+    pbt("c04_bookkeeping_invariants_deep", c.n, maxlen, [maxlen]() {
+        Case cs; cs.chips = 1; cs.arp = *rc::gen::weightedElement<int>({{3, 1}, {1, 0}});
+        cs.ops = *rc::gen::container<std::vector<Op>>(genOpDeep());
+        std::string s = ser(cs);
+        run_case(s, [&] { Info info; run(cs, info); account(cs, info, s); ctx().stats.label("profile:deep"); });
     });
     return finish();
 }
